@@ -8,13 +8,16 @@ import (
 // createsVia: functions through which a call constructs an instance: createInstance
 // itself and the private helpers of eager creation that call it.
 func createsVia(w *World, ro *roles) map[*types.Func]bool {
-	out := map[*types.Func]bool{ro.createInstance.Obj: true}
+	out := map[*types.Func]bool{}
+	for k := range ro.creators {
+		out[k] = true
+	}
 	for fi := range w.HelperClosure(map[*FuncInfo]string{ro.createAll: "eager creation"}) {
 		if fi == ro.createAll {
 			continue
 		}
 		for _, c := range callsIn(fi.Decl.Body, true) {
-			if callee(fi.Pkg.TypesInfo, c) == ro.createInstance.Obj {
+			if ro.isCreate(callee(fi.Pkg.TypesInfo, c)) {
 				out[fi.Obj] = true
 			}
 		}
